@@ -5,6 +5,7 @@ use crate::gen;
 use crate::monitor::{digest, observe, par_range, Cfg, Ctx, Report};
 use crate::oracle::dsym::MSym;
 use crate::rng::Rng;
+use crate::shapes;
 use rust_dsymbols::dsets::DSet;
 use rust_dsymbols::generators::dset_generators::DSets;
 use serde_json::{json, Value};
@@ -17,6 +18,28 @@ pub fn generator_output(ctx: &mut Ctx, dim: usize, n: usize) -> Option<Vec<(MSym
     ctx.eval();
     let r = observe(|| DSets::new(dim, n).map(|s| (s.set_count(), from_dset(&s))).collect::<Vec<_>>());
     let out = ctx.no_panic("DSets::new(dim,n).collect()", input, r)?;
+    // the generator is an Iterator: whatever way the caller drives it (nth, skip, step_by, take in chunks,
+    // last, fold ...) the items and their numbers must be those of the plain next() sequence
+    {
+        let key = |count: usize, m: &MSym| format!("#{} {}", count, m.to_text());
+        let plain: Vec<String> = out.iter().map(|(c, m)| key(*c, m)).collect();
+        let modes: Vec<usize> = if plain.len() <= 2500 { (0..shapes::CONSUME_MODES).collect() } else { vec![(dim * 31 + n) % shapes::CONSUME_MODES, (dim * 17 + n * 3 + 1) % shapes::CONSUME_MODES] };
+        for mode in modes {
+            let mut rng = Rng::stream((dim * 100 + n) as u64, mode as u64);
+            ctx.eval();
+            let r = observe(|| shapes::consume(DSets::new(dim, n), plain.len(), mode, &mut rng));
+            match r {
+                Ok(c) => {
+                    ctx.count("consumption_modes_compared_with_plain_next");
+                    ctx.add("items_taken_through_iterator_adaptors", c.taken.len() as u64);
+                    if let Some(problem) = shapes::judge_consumed(&c, &plain, |s| key(s.set_count(), &from_dset(s))) {
+                        ctx.violation("output-depends-on-how-the-iterator-is-driven", "DSets as Iterator", json!({"dim": dim, "max_size": n, "mode": c.mode}), json!(problem), "the same D-sets with the same consecutive numbers whichever Iterator methods the caller uses");
+                    }
+                }
+                Err(p) => ctx.violation(&format!("panic@{}", p.short_loc()), "DSets as Iterator", json!({"dim": dim, "max_size": n, "mode": mode}), p.to_json(), "no panic"),
+            }
+        }
+    }
     let mut result = vec![];
     let mut seen: BTreeMap<Vec<usize>, usize> = BTreeMap::new();
     for (k, (count, m)) in out.iter().enumerate() {
